@@ -2,8 +2,7 @@
     argument lists that satisfy the typing side condition of the key, in both profiles, wherever the spec entry is
     defined.  [run_tab t k dbg a] is the table lookup of Model/Api.v (Proofs/TotalityP.v).
     Side conditions ([glue_tbl_ty]): the two halves of a wide value have one limb count (Rust's types);
-    "glue.zero_like_wrapping_boxed" agrees only for a ONE-limb operand -- for every other precision the code returns a
-    one-limb zero where the documentation promises the operand's precision ([zero_like_wrapping_boxed_refuted]). *)
+    "glue.zero_like_wrapping_boxed" agrees at every precision since the repair of finding F32 (/repo 526c7f5). *)
 From CB Require Import Model.Limbs Model.AddSub Model.Cmp Model.Conv Model.Bits Model.Div Model.Glue
   Proofs.WordP Proofs.LimbsP Proofs.CmpWordP Proofs.ConvDigitsP Proofs.ConvBytesP Proofs.TotalityP.
 From CB Require Proofs.ConvTablesP Proofs.BitsTablesP Proofs.WrappersP.
@@ -22,7 +21,7 @@ Definition ty_halves (a : list (list Z)) : bool := (length (arg 1 a) =? length (
 
 Open Scope string_scope.
 Definition glue_tbl_ty : gtyping :=
-  [("glue.zero_like_wrapping_boxed", ty_one_limb); ("glue.shl_wide_expect", ty_halves); ("glue.shr_wide_expect", ty_halves)].
+  [("glue.shl_wide_expect", ty_halves); ("glue.shr_wide_expect", ty_halves)].
 Close Scope string_scope.
 
 Definition tbl_ok (k : string) : Prop :=
@@ -166,10 +165,7 @@ Lemma tbl_zero_like : tbl_ok "glue.zero_like".
 Proof. start. rewrite BitsTablesP.zeros_to_limbs. reflexivity. Qed.
 
 Lemma tbl_zero_like_wrapping_boxed : tbl_ok "glue.zero_like_wrapping_boxed".
-Proof.
-  start. unfold ty_one_limb in Hty. apply Nat.eqb_eq in Hty. unfold g_len. rewrite Hty.
-  rewrite to_limbs_S_word by apply zero_is_word. reflexivity.
-Qed.
+Proof. start. rewrite BitsTablesP.zeros_to_limbs. reflexivity. Qed.
 
 Lemma tbl_recip_default : tbl_ok "glue.recip_default".
 Proof. start. vm_compute. reflexivity. Qed.
@@ -276,14 +272,9 @@ Lemma glue_key_set :
   map fst ops_glue_spec = map fst ops_glue_model /\ length (map fst ops_glue_model) = 23%nat.
 Proof. split; reflexivity. Qed.
 
-(** the one-limb side condition of "glue.zero_like_wrapping_boxed" is needed: on a two-limb operand the model of the
-    code (Zero::zero_like on Wrapping<BoxedUint>: the trait's default set_zero, `*self = Zero::zero()`) returns ONE zero
-    limb, the documented result ("the value 0 with the same precision as other") has two *)
-Lemma zero_like_wrapping_boxed_refuted :
-  exists a, wf_args a /\
-    run_tab ops_glue_model "glue.zero_like_wrapping_boxed" false a = Val [[0]] /\
-    run_tab ops_glue_spec "glue.zero_like_wrapping_boxed" false a = Val [[0; 0]].
-Proof.
-  exists [[5; 6]]. split; [|split; vm_compute; reflexivity].
-  constructor; [|constructor]. constructor; [|constructor; [|constructor]]; vm_compute; split; congruence.
-Qed.
+(** "glue.zero_like_wrapping_boxed" needs no side condition any more: since the repair of finding F32 (/repo 526c7f5)
+    Zero::zero_like on Wrapping<BoxedUint> keeps the operand's precision, e.g. on a two-limb operand: *)
+Lemma zero_like_wrapping_boxed_keeps_precision :
+  run_tab ops_glue_model "glue.zero_like_wrapping_boxed" false [[5; 6]] = Val [[0; 0]] /\
+  run_tab ops_glue_spec "glue.zero_like_wrapping_boxed" false [[5; 6]] = Val [[0; 0]].
+Proof. split; vm_compute; reflexivity. Qed.
